@@ -520,7 +520,13 @@ class Check:
             "coverage": cov, "assumptions": self.assumptions, "wall_s": round(time.time() - self.t0, 2),
             "violations": nviol,
         }
-        path = os.path.join(VERIF, "evidence", f"{self.pid}.json")
+        # evidence/ only ever describes runs against /repo itself; runs against another tree (VERIF_REPO: fix worktrees,
+        # seeded changes) write their evidence under .build/ so that the committed files are never clobbered
+        if os.path.realpath(REPO) == "/repo":
+            path = os.path.join(VERIF, "evidence", f"{self.pid}.json")
+        else:
+            os.makedirs(os.path.join(BUILD, "evidence-other-tree"), exist_ok=True)
+            path = os.path.join(BUILD, "evidence-other-tree", f"{self.pid}.json")
         with open(path, "w") as f:
             json.dump(ev, f, indent=1)
         return path
